@@ -256,7 +256,8 @@ def oracle_history(evs, pool):
     diffs = sorted([('extra', x) for x in extra_non_ucast] + [('missing', x) for x in missing], key=lambda d: d[1][1])
     if diffs:
         t_first = diffs[0][1][1]
-        if any(n in ('qu', 'qmix', 'tcqu') and 0 <= t_first - dt <= 700 for dt, n, _, _ in evs):
+        # (the second handling may put its answer into the protected queue: up to 1 s + 200 ms + jitter later)
+        if any(n in ('qu', 'qmix', 'tcqu') and 0 <= t_first - dt <= 1400 for dt, n, _, _ in evs):
             tags = ('qu_double_multicast',)
     return (f"doubling every datagram changed the observable behaviour: extra {str(extra_non_ucast)[:500]} missing {str(missing)[:300]}"), tags
 
